@@ -1,3 +1,181 @@
-import Driver.Common
-/- stub: model driver for C13 not built yet -/
-def main : IO Unit := Driver.lineLoop (fun _ => "unimplemented")
+import Driver.GenVL
+import ThriftVerif.Gen.Mask
+import ThriftVerif.Generated.C13
+import ThriftVerif.Generated.C14
+/-
+  Model driver for C13 (see harness/cmd/c13/main.go for the line protocol).
+    P/S lines                          schema of a unit (docs/BATCH.md §5); options field_mask_halfway / field_mask_zero_required
+    D u<i> <n> (<nf> <namehex>*)*      field names of every struct-like (for paths that name fields)
+    MW <key> <mask> <nenv> (<pos> <mask>)* <value>    Set_FieldMask on children (env), on the root, then Write
+    MR <key> <mask> <hex>                              NewX, Set_FieldMask, Read
+    mask = `n` (nil) | <black 0|1> <k> <hexpath>*k     built by the C14 model of fieldmask.NewFieldMask
+-/
+namespace Driver.C13
+open Gen Driver.GenVL
+open FieldMask (MaskOpt Sites)
+
+structure Unit where
+  opts : Gen.Mask.Opts := {}
+  names : List (List Bytes) := []
+
+structure St where
+  ps : Progs := []
+  us : List (String × Unit) := []
+
+def St.unit (s : St) (u : String) : Unit := ((s.us.find? (·.1 == u)).map (·.2)).getD {}
+def St.setUnit (s : St) (u : String) (x : Unit) : St :=
+  { s with us := (u, x) :: s.us.filter (·.1 != u) }
+
+def cfg : Sites := Generated.C14.sites
+def tpl : Gen.Mask.Tpl := Generated.C13.tpl
+
+def str (s : String) : Bytes := s.toList.map (·.toNat)
+
+/-- descriptor name of struct-like `i`: structs are `S<i>`; unions and exceptions are `U<i>`, which the descriptor
+schema does not list among the structs (`IsStruct()` is false for them: switchFt gives Invalid) -/
+def sname (P : Prog) (i : Nat) : Bytes :=
+  match P.struct? i with
+  | some sd => if sd.kind = 0 then str s!"S{i}" else str s!"U{i}"
+  | none => str s!"X{i}"
+
+def descTy (P : Prog) : Ty → FieldMask.Ty
+  | .bool => .named (str "bool") | .i8 => .named (str "byte") | .i16 => .named (str "i16")
+  | .i32 => .named (str "i32") | .i64 => .named (str "i64") | .dbl => .named (str "double")
+  | .str => .named (str "string") | .bin => .named (str "binary") | .enum => .named (str "E")
+  | .list e => .list (descTy P e) | .set e => .list (descTy P e)
+  | .map k v => .map (descTy P k) (descTy P v)
+  | .struct i => .named (sname P i)
+
+def descSchema (P : Prog) (names : List (List Bytes)) : FieldMask.Schema :=
+  let idx := List.range P.structs.length
+  { structs := (idx.zip (P.structs.zip names)).filterMap fun (i, sd, ns) =>
+      if sd.kind = 0 then
+        some (sname P i, (sd.fields.zip ns).map fun (f, n) => { id := f.id, name := n, ty := descTy P f.ty })
+      else none,
+    typedefs := [],
+    enums := [str "E"] }
+
+inductive MaskR
+  | ok (m : MaskOpt)
+  | bad (s : String)
+
+/-- parse a mask spec and build the mask with the C14 model -/
+def parseMask (sch : FieldMask.Schema) (desc : FieldMask.Ty) : List String → Option (MaskR × List String)
+  | "n" :: r => some (.ok .none, r)
+  | b :: k :: r => do
+      let n ← k.toNat?
+      if r.length < n then none else
+      let paths ← (r.take n).mapM VL.hexDecode
+      let rest := r.drop n
+      let black := b == "1"
+      match FieldMask.newFieldMask cfg sch desc black paths with
+      | .ok m => some (.ok (.some m), rest)
+      | .err _ => some (.bad "maskerr", rest)
+      | .panic _ => some (.bad "maskpanic", rest)
+      | .crash => some (.bad "maskcrash", rest)
+  | _ => none
+
+/-- canonical form: map entries sorted by encoded key (the harness sorts the recorded entries alike) -/
+partial def canonM : Gen.Mask.MW → Gen.Mask.MW
+  | .struct fs => .struct (fs.map fun (i, v) => (i, canonM v))
+  | .list t c xs => .list t c (xs.map canonM)
+  | .set t c xs => .set t c (xs.map canonM)
+  | .map k v c kvs =>
+      let es := kvs.map fun (a, b) => (canonM a, canonM b)
+      let keyed := es.map fun (a, b) => (VL.hexEncode (Gen.Mask.encM a), (a, b))
+      .map k v c ((keyed.foldr ins []).map (·.2))
+  | w => w
+where
+  ins (x : String × (Gen.Mask.MW × Gen.Mask.MW)) : List (String × (Gen.Mask.MW × Gen.Mask.MW)) → List (String × (Gen.Mask.MW × Gen.Mask.MW))
+  | [] => [x]
+  | y :: r => if x.1 ≤ y.1 then x :: y :: r else y :: ins x r
+
+def parseEnv (P : Prog) (sch : FieldMask.Schema) (sd : StructDef) : Nat → List String → Option (Except String Gen.Mask.Env × List String)
+  | 0, r => some (.ok [], r)
+  | n + 1, pos :: r => do
+      let j ← pos.toNat?
+      let f ← sd.fields[j]?
+      let (m, r1) ← parseMask sch (descTy P f.ty) r
+      let (rest, r2) ← parseEnv P sch sd n r1
+      match m, rest with
+      | .ok mo, .ok env => some (.ok ((j, mo) :: env), r2)
+      | .bad s, _ => some (.error s, r2)
+      | _, .error s => some (.error s, r2)
+  | _, _ => none
+
+def hexOut (b : Bytes) : String := if b.isEmpty then "-" else VL.hexEncode b
+
+def step (st : St) (line : String) : St × String :=
+  let toks := VL.toks line
+  match toks with
+  | "P" :: u :: _ :: opts =>
+      let st := st.setUnit u { opts := { halfway := optOn opts "field_mask_halfway" false, zeroReq := optOn opts "field_mask_zero_required" false } }
+      match schemaLine st.ps toks with
+      | some (ps', out) => ({ st with ps := ps' }, out)
+      | none => (st, "bad-op")
+  | "S" :: _ =>
+      match schemaLine st.ps toks with
+      | some (ps', out) => ({ st with ps := ps' }, out)
+      | none => (st, "bad-op")
+  | "D" :: u :: n :: rest =>
+      let rec go : Nat → List String → Option (List (List Bytes))
+        | 0, [] => some []
+        | 0, _ => none
+        | k + 1, nf :: r => do
+            let c ← nf.toNat?
+            if r.length < c then none else
+            let ns ← (r.take c).mapM VL.hexDecode
+            let tl ← go k (r.drop c)
+            some (ns :: tl)
+        | _, _ => none
+      match n.toNat? with
+      | some k => match go k rest with
+        | some names => (st.setUnit u { st.unit u with names := names }, "ok")
+        | none => (st, "bad-op")
+      | none => (st, "bad-op")
+  | "MW" :: key :: rest =>
+      (st, (do
+        let (u, i) ← splitKey key
+        let P ← st.ps.get u
+        let un := st.unit u
+        let sch := descSchema P un.names
+        let sd ← P.struct? i
+        let (m, r1) ← parseMask sch (.named (sname P i)) rest
+        match r1 with
+        | ne :: r2 =>
+          let n ← ne.toNat?
+          let (env, r3) ← parseEnv P sch sd n r2
+          let (v, r4) ← parseVal r3
+          if !r4.isEmpty then none else
+          match m, env with
+          | .bad s, _ => some s
+          | _, .error s => some s
+          | .ok fm, .ok env =>
+            some (match Gen.Mask.toM P tpl un.opts cfg env fm (.struct i) v with
+              | .ok w => "ok " ++ hexOut (Gen.Mask.encM (canonM w))
+              | .err => "err"
+              | .panic => "panic")
+        | [] => none).getD "bad-op")
+  | "MR" :: key :: rest =>
+      (st, (do
+        let (u, i) ← splitKey key
+        let P ← st.ps.get u
+        let un := st.unit u
+        let sch := descSchema P un.names
+        let (m, r1) ← parseMask sch (.named (sname P i)) rest
+        match r1 with
+        | [hex] =>
+          let bs ← VL.hexDecode hex
+          match m with
+          | .bad s => some s
+          | .ok fm =>
+            some (match Gen.Mask.read P cfg fm i bs with
+              | .ok v => "ok " ++ showVal P (.struct i) v
+              | .err => "err"
+              | .panic => "panic")
+        | _ => none).getD "bad-op")
+  | _ => (st, "bad-op")
+
+end Driver.C13
+
+def main : IO Unit := Driver.stateLoop ({} : Driver.C13.St) Driver.C13.step
